@@ -295,7 +295,10 @@ type SubNode struct {
 	FailAt map[cid.Cid]error
 	// ParkHooks makes every hook call a park point.
 	ParkHooks bool
-	// NoNext makes the hook not set the next CID (segmented sync stops).
+	// QuietEnd makes the hook say nothing about the next CID for a block
+	// that has no predecessor (the documented way to end a segmented sync),
+	// instead of naming cid.Undef.
+	QuietEnd bool
 	closedAt int64
 }
 
@@ -345,7 +348,7 @@ func (s *SubNode) hookTagged(p peer.ID, c cid.Cid, act dagsync.SegmentSyncAction
 	if ad, err := schema.BytesToAdvertisement(c, data); err == nil {
 		if ad.PreviousID != nil {
 			act.SetNextSyncCid(ad.PreviousID.(cidlink.Link).Cid)
-		} else {
+		} else if !s.QuietEnd {
 			act.SetNextSyncCid(cid.Undef)
 		}
 		return
@@ -353,7 +356,7 @@ func (s *SubNode) hookTagged(p peer.ID, c cid.Cid, act dagsync.SegmentSyncAction
 	if ch, err := schema.BytesToEntryChunk(c, data); err == nil {
 		if ch.Next != nil {
 			act.SetNextSyncCid(ch.Next.(cidlink.Link).Cid)
-		} else {
+		} else if !s.QuietEnd {
 			act.SetNextSyncCid(cid.Undef)
 		}
 		return
